@@ -151,4 +151,72 @@ func runC30(c *Ctx) {
 		nilOrderRule(c, r3, l)
 	}
 
+	r4 := c.Rule("R4", "every way of opening a JSON map-key store derives the comparer from the persisted index specification in the same way: the openers (NewJsonBtreeMapKey, OpenJsonBtreeMapKey, OpenJsonBtreeMapKeyCursor) assign j.indexSpecification under the same conditions - otherwise two processes order one store differently", 3)
+	{
+		specF := c.W.Field("jsondb", "JsonDBMapKey", "indexSpecification")
+		type site struct {
+			fn    string
+			conds []string
+			pos   token.Pos
+		}
+		var sites []site
+		for _, fn := range c.W.declaredFuncs("jsondb") {
+			g := c.W.G(fn)
+			info := fn.Pkg.TypesInfo
+			for _, n := range g.Nodes {
+				as, ok := n.Ast.(*ast.AssignStmt)
+				if !ok || len(as.Lhs) != 1 || fieldOfSelector(info, as.Lhs[0]) != specF {
+					continue
+				}
+				if len(as.Rhs) == 1 && isNilLit(info, as.Rhs[0]) {
+					continue
+				}
+				c.Analysed(fn)
+				// the decoded specification variable (`&is` on the right-hand side)
+				var specVar types.Object
+				if len(as.Rhs) == 1 {
+					if u, ok := ast.Unparen(as.Rhs[0]).(*ast.UnaryExpr); ok {
+						if id, ok := ast.Unparen(u.X).(*ast.Ident); ok {
+							specVar = info.Uses[id]
+						}
+					}
+				}
+				// gating conditions on that variable: conds one of whose edges cuts every path to the assignment
+				var cs []string
+				for _, cn := range g.Nodes {
+					if !cn.IsCond || cn.Ast == nil {
+						continue
+					}
+					e, _ := cn.Ast.(ast.Expr)
+					if e == nil {
+						continue
+					}
+					for _, br := range []int{1, 2} {
+						if len(g.ReachableWithout(edgeCut([]*GNode{cn}, br), func(x *GNode) bool { return x == n })) == 0 {
+							t := types.ExprString(e)
+							if br == 2 {
+								t = "!(" + t + ")"
+							}
+							// conditions on the function's own inputs differ by design (names of parameters); keep the ones about the decoded specification and the decode result
+							if specVar != nil && mentionsObj(info, e, specVar) {
+								cs = append(cs, t)
+							}
+						}
+					}
+				}
+				sort.Strings(cs)
+				sites = append(sites, site{shortKey(fn.Key), cs, as.Pos()})
+			}
+		}
+		c.Check(len(sites) >= 3, r4, "index-specification assignment sites inventoried", token.NoPos, fmt.Sprintf("%d sites", len(sites)), fmt.Sprintf("only %d sites", len(sites)), nil)
+		if len(sites) > 0 {
+			ref := strings.Join(sites[0].conds, " && ")
+			for _, st := range sites {
+				got := strings.Join(st.conds, " && ")
+				c.Check(got == ref, r4, st.fn+": the specification is installed under the same conditions as in "+sites[0].fn, st.pos, "["+got+"]",
+					fmt.Sprintf("%s installs the decoded specification under [%s] while %s does so under [%s]: a store opened through one path uses the specification's comparer, through the other the default one - the same pair of keys compares differently, scans come out unsorted and Find misses stored keys", st.fn, got, sites[0].fn, ref), nil)
+			}
+		}
+	}
+
 }
